@@ -302,6 +302,7 @@ var strategies = []string{
 	"S10-weak-commitment-empty-adaptive-key", "S10-weak-commitment-prefix-adaptive-key",
 	"S9-consistent-key-off-polynomial", "S9-consistent-key-too-few-components", "S9-consistent-key-too-many-components",
 	"S9-consistent-key-not-a-point", "S9-consistent-key-truncated", "S9-consistent-key-empty", "S9-consistent-key-one-byte",
+	"S9-genuine-key-surplus-component",
 	"S11-dealer-polynomial-of-degree-t",
 }
 
@@ -500,7 +501,7 @@ func filterFor(k cell, cd codec, topicOf func() []byte) func(p *world.Packet) []
 			if victim && tag == tagReveal {
 				out = nil
 			}
-		case "S9-consistent-key-off-polynomial", "S9-consistent-key-too-few-components", "S9-consistent-key-too-many-components":
+		case "S9-consistent-key-off-polynomial", "S9-consistent-key-too-few-components", "S9-consistent-key-too-many-components", "S9-genuine-key-surplus-component":
 			// realised by keyShifter (the deviator's backend wrapper), nothing to do on the wire
 		}
 		return append(pre, out...)
@@ -688,6 +689,11 @@ func run(c *harness.C, k cell, r world.Chooser) *out {
 		st.KGF = func(id uint16) tss.KeyGenerator {
 			inner := mk(id)
 			if id == k.Dev {
+				if k.Strategy == "S9-genuine-key-surplus-component" {
+					// the deviator's own, correct key with one component too many, committed to in
+					// that very form
+					return &keyShifter{KeyGenerator: inner, pad: func(b []byte) []byte { return cd.wrongCount(b, true) }}
+				}
 				if strings.HasPrefix(k.Strategy, "S9") {
 					key := cd.otherKey(33)
 					switch {
@@ -743,6 +749,10 @@ func run(c *harness.C, k cell, r world.Chooser) *out {
 type keyShifter struct {
 	tss.KeyGenerator
 	key []byte
+	// pad, if set: the instance's own commitment is withheld until the instance reveals its key
+	// (which it does as soon as it holds the others' commitments - it does not need its own to be
+	// out); then the commitment to pad(key) and pad(key) itself are sent, in this order
+	pad func([]byte) []byte
 }
 
 func (s *keyShifter) Init(parties []uint16, threshold int, sendMsg func(msg []byte, isBroadcast bool, to uint16)) {
@@ -753,6 +763,16 @@ func (s *keyShifter) Init(parties []uint16, threshold int, sendMsg func(msg []by
 		// computed from the instance's public key - obtained by asking the instance to reveal
 		// early is not possible. Therefore use a fixed unrelated key as pk' (it matches its
 		// commitment, and is off the common polynomial): same effect for the honest parties.
+		if s.pad != nil && len(msg) > 0 && msg[0] == tagCommit {
+			return
+		}
+		if s.pad != nil && len(msg) > 0 && msg[0] == tagReveal {
+			key := s.pad(msg[1:])
+			h := sha256.Sum256(key)
+			sendMsg(append([]byte{tagCommit}, h[:]...), isBroadcast, to)
+			sendMsg(append([]byte{tagReveal}, key...), isBroadcast, to)
+			return
+		}
 		if len(msg) > 0 && msg[0] == tagCommit {
 			h := sha256.Sum256(s.key)
 			sendMsg(append([]byte{tagCommit}, h[:]...), isBroadcast, to)
